@@ -134,6 +134,22 @@ def reconnection_cases(rng):
                 cases.append({"mode": "v5", "kind": kind, "lines": [gen.line(req)] * 3, "connects": [True, True],
                               "pin": (b"1234567a", True), "rand": [b"Zz9Zz9Zz", b"Yy8Yy8Yy"], "fs": [True, True],
                               "device": PowerCycled(d), "meta": {"kind": kind, "fault": repr(fault)}})
+                if post == 3:
+                    # the same with the client of the repairing request (or every client) gone before its reply can
+                    # be written: the change attempt still stops the manager (judged by the oracle alone - the model
+                    # has no failing reply channel)
+                    for hang in ([1], [0, 1, 2]):
+                        d2 = gen.random_device(rng)
+                        d2.sgx = kind == "sgx"
+                        d2.pin = b"1234567a"
+                        d2.after_exit = [post, post]
+                        if fault is not None:
+                            d2.inject[(0xA5 if kind == "sgx" else 0x08, "*")] = fault
+                        cases.append({"mode": "v5", "kind": kind, "lines": [gen.line(req)] * 3,
+                                      "connects": [True, True], "pin": (b"1234567a", True),
+                                      "rand": [b"Zz9Zz9Zz", b"Yy8Yy8Yy"], "fs": [True, True],
+                                      "device": PowerCycled(d2), "hangup": hang, "nocompare": True,
+                                      "meta": {"kind": kind, "fault": repr(fault), "hangup": hang}})
     return cases
 
 
